@@ -186,7 +186,7 @@ struct Run : ContBase {
         bool ok = false, ok2 = false;
         for (int rep = 0; rep < (twin ? 2 : 1); rep++) {
             qhasharr_t *h = rep ? twin : t;
-            errno = 0; bool r;
+            errno = poison; bool r;
             switch (api) {
                 case 0: r = qhasharr_put(h, kb.c(), vb.p, vb.n); break;
                 case 1: r = qhasharr_putstr(h, kb.c(), vb.c()); break;
@@ -219,7 +219,7 @@ struct Run : ContBase {
         int api = strapi ? (int)s.pick({2, 1, 2}) : 2;
         Buf kb(k);
         size_t sz = 31337; void *p;
-        errno = 0;
+        errno = poison;
         if (api == 0) p = qhasharr_get(t, kb.c(), &sz);
         else if (api == 1) p = qhasharr_getstr(t, kb.c());
         else p = qhasharr_get_by_obj(t, kb.p, kb.n, &sz);
@@ -247,7 +247,7 @@ struct Run : ContBase {
         bool bystr = strapi && s.boolean();
         for (int rep = 0; rep < (twin ? 2 : 1); rep++) {
             qhasharr_t *h = rep ? twin : t;
-            errno = 0;
+            errno = poison;
             bool r = bystr ? qhasharr_remove(h, kb.c()) : qhasharr_remove_by_obj(h, kb.c(), kb.n);
             if (rep) ok2 = r; else { ok = r; e = errno; }
         }
@@ -277,7 +277,7 @@ struct Run : ContBase {
         }
         bool promote = cnt > 1;
         bool ok = false, ok2 = false; int e = 0;
-        for (int rep = 0; rep < (twin ? 2 : 1); rep++) { errno = 0; bool r = qhasharr_remove_by_idx(rep ? twin : t, idx); if (rep) ok2 = r; else { ok = r; e = errno; } }
+        for (int rep = 0; rep < (twin ? 2 : 1); rep++) { errno = poison; bool r = qhasharr_remove_by_idx(rep ? twin : t, idx); if (rep) ok2 = r; else { ok = r; e = errno; } }
         c.op("remove_by_idx(%d) [%s]", idx, found ? hexs(target, 10).c_str() : cnt == 0 ? "empty slot" : "extension block");
         seei(ok);
         if (twin && ok != ok2) c.fail(IMAGE, "hasharr:image-not-deterministic", "remove_by_idx succeeded at one address and failed at the other");
@@ -320,6 +320,7 @@ struct Run : ContBase {
     }
 
     void run() {
+        draw_poison();
         bool m7 = c.mode == "C07";
         int ck = (int)s.pick({4, 3, 2});
         cap = ck == 0 ? (int)s.range(2, 6) : ck == 1 ? (int)s.range(7, 16) : (int)s.range(17, 48);
@@ -380,3 +381,98 @@ bool vf_configure(Ctx &c) {
     return configure_container(c, "C06", FUNC);
 }
 void run_case(Src &s, Ctx &c) { run_modes<Run>(s, c, "hasharr"); }
+
+// ---------------------------------------------------------------------------------------------
+// Bounded-exhaustive part for C06/C07: breadth-first search over EVERY table image reachable for
+// a tiny table (capacity 2..4 per worker) with 4 keys chosen to collide and 3 value sizes
+// (1, 33, 99 bytes = 1, 2, 3 slots) by put / remove / remove_by_idx / clear.  States are
+// deduplicated on the image bytes; because the image is self-contained a state is re-entered
+// by copying its bytes to a fresh region and attaching a handle (itself an exercise of C07).
+// After every transition: space model verdict of the put, size triple, full walk + gets against
+// the model (C06), independent well-formedness walk (C07); two histories that reach the same
+// image must agree on the model.
+bool vf_enumerate(Ctx &c, EnumStats &st) {
+    int shard = 0, nshards = 1;
+    if (const char *e = getenv("VF_ENUM_SHARD")) sscanf(e, "%d/%d", &shard, &nshards);
+    int cap = 2 + shard % 3;
+    if (c.tier && shard >= 3) cap = 5;
+    size_t memsize = qhasharr_calculate_memsize(cap);
+    uint8_t zero[4] = {0};
+    // keys: search a few short names until two share a home slot and one more hits another key's neighbour
+    std::vector<std::string> keys;
+    {
+        std::map<uint32_t, std::vector<std::string>> byhome;
+        for (int i = 0; i < 200 && keys.size() < 4; i++) {
+            std::string k = "k" + std::to_string(i + shard * 7); k.push_back('\0');
+            uint32_t h = qhashmurmur3_32(k.data(), k.size()) % (uint32_t)cap;
+            if (byhome[h].size() < 2) { byhome[h].push_back(k); keys.push_back(k); }
+        }
+        keys.push_back(std::string("PREFIX-SHARED-16a") + std::string(1, '\0'));     // long key: matched by length, prefix, digest
+    }
+    static const size_t vsz[] = {1, 33, 99};
+    struct State { std::string image; std::map<std::string, std::string> model; };
+    std::map<std::string, std::map<std::string, std::string>> seen;
+    std::vector<std::string> frontier;
+    { std::vector<uint8_t> mem(memsize + 8); uint8_t *p = mem.data(); p += (8 - ((uintptr_t)p & 7)) & 7; qhasharr_t *t0 = qhasharr(p, memsize); if (!t0) throw CaseStop{"ctor"}; std::string img((char *)p, memsize); qhasharr_free(t0); seen[img] = {}; frontier.push_back(img); }
+    size_t K = keys.size();
+    int ntrans = (int)(K * 3 + K + cap + 1);
+    uint64_t limit = c.tier ? 400000 : 60000;
+    while (!frontier.empty() && seen.size() < limit) {
+        std::vector<std::string> next;
+        for (auto &img : frontier) {
+            for (int tr = 0; tr < ntrans; tr++) {
+                vf_ledger_reset(); vf_ledger_on = 1;       // copies handed out by the walk are checked through the ledger
+                Src s0(zero, 0);
+                Run r(s0, c, false, false);
+                r.cap = cap; r.m = seen[img];
+                r.reg.make(memsize, 4 * (size_t)((tr + shard) % 8), true);
+                memcpy(r.reg.mem(), img.data(), memsize);
+                r.t = qhasharr(r.reg.mem(), 0);
+                if (!r.t) c.fail(IMAGE, "hasharr:attach", "qhasharr(copy,0) returned NULL");
+                std::string what;
+                if (tr < (int)(K * 3)) {
+                    const std::string &k = keys[(size_t)tr / 3]; std::string v(vsz[tr % 3], (char)('a' + tr % 26));
+                    bool present = r.m.count(k) > 0;
+                    size_t used = r.used_model(), need = slots_for(v.size()), rel = present ? slots_for(r.m[k].size()) : 0;
+                    bool expect = used < (size_t)cap && need <= (size_t)cap - used + rel;
+                    errno = 0;
+                    bool ok = qhasharr_put_by_obj(r.t, k.data(), k.size(), v.data(), v.size());
+                    what = strf("put(%s,%zuB)", hexs(k, 8).c_str(), v.size());
+                    c.trace = "enumerated image state (" + std::to_string(r.m.size()) + " keys) then " + what;
+                    if (ok != expect) c.fail(FUNC, "hasharr:put-space", "%s with %zu of %d slots used returned %d, expected %d", what.c_str(), used, cap, (int)ok, (int)expect);
+                    if (ok) r.m[k] = v;
+                    else { if (errno != ENOBUFS) c.fail(FUNC, "hasharr:put-errno", "refused put: errno=%d", errno); if (present) { void *p = qhasharr_get_by_obj(r.t, k.data(), k.size(), nullptr); if (!p) r.m.erase(k); else free(p); } if (need > 1) st.nontrivial++; }
+                } else if (tr < (int)(K * 4)) {
+                    const std::string &k = keys[(size_t)tr - K * 3]; bool present = r.m.count(k) > 0;
+                    bool ok = qhasharr_remove_by_obj(r.t, k.data(), k.size());
+                    what = strf("remove(%s)", hexs(k, 8).c_str()); c.trace = "enumerated image state then " + what;
+                    if (ok != present) c.fail(FUNC, "hasharr:remove-result", "%s returned %d, key %s", what.c_str(), (int)ok, present ? "present" : "absent");
+                    r.m.erase(k); if (present) st.nontrivial++;
+                } else if (tr < (int)(K * 4) + cap) {
+                    int idx = tr - (int)(K * 4);
+                    qhasharr_slot_t *sl = r.slots(r.t); short cnt = sl[idx].count; std::string target; bool found = false;
+                    if (cnt > 0 || cnt == -1) { uint16_t ns = sl[idx].data.pair.namesize; for (auto &kv : r.m) if (kv.first.size() == ns && memcmp(kv.first.data(), sl[idx].data.pair.name, ns < 16 ? ns : 16) == 0) { target = kv.first; found = true; break; } }
+                    bool ok = qhasharr_remove_by_idx(r.t, idx);
+                    what = strf("remove_by_idx(%d)", idx); c.trace = "enumerated image state then " + what;
+                    if (ok != found) c.fail(FUNC, "hasharr:remove-idx-result", "%s returned %d, slot %s", what.c_str(), (int)ok, found ? "holds a key" : "holds no key");
+                    if (found) r.m.erase(target);
+                } else { qhasharr_clear(r.t); r.m.clear(); what = "clear()"; c.trace = "enumerated image state then clear()"; }
+                st.transitions++; st.evaluations++;
+                size_t w; if (!r.reg.canaries_ok(&w)) c.fail(IMAGE, "hasharr:canary", "after %s: byte %zu outside the region was overwritten", what.c_str(), w);
+                r.check_image(r.t, what.c_str());
+                r.observe(r.t, FUNC, what.c_str());
+                std::string ni((char *)r.reg.mem(), memsize);
+                auto it = seen.find(ni);
+                if (it == seen.end()) { seen[ni] = r.m; next.push_back(ni); if (st.samples.size() < 3 && seen.size() % 257 == 3) st.samples.push_back(strf("image state #%zu: capacity %d, %zu keys, reached by %s", seen.size(), cap, r.m.size(), what.c_str())); }
+                else if (it->second != r.m) c.fail(IMAGE, "hasharr:image-ambiguous", "two histories reach the same image bytes but disagree on the stored keys/values");
+                qhasharr_free(r.t); r.t = nullptr;
+            }
+        }
+        frontier.swap(next);
+    }
+    if (!frontier.empty()) st.complete = false;
+    st.states = seen.size();
+    st.extra["max_capacity"] = (uint64_t)cap;
+    st.samples.push_back(strf("image BFS: capacity %d, %zu keys x value sizes 1/33/99, %zu distinct images, %llu transitions%s", cap, K, seen.size(), (unsigned long long)st.transitions, st.complete ? "" : " (state limit reached: not complete)"));
+    return true;
+}
